@@ -398,6 +398,28 @@ func Run(r *fw.Run) {
 		}
 		r.Merge(l)
 	})
+	// call histories: every ordered pair of a set of closely related versions, queried back to back in one
+	// goroutine (a result must not depend on what was asked just before)
+	{
+		l := fw.NewLocal()
+		rel := []string{"v1.2.3", "v1.2.3+a", "v1.2.3+b", "v1.2.3-a", "v1.2.3-a+a", "v1.2", "v1", "v1.2.3-A", "V1.2.3", "v1.2.3 ", "v1.2.30", "v1.2.03", "v01.2.3", "v1.2.3-", "v1.2.3+", "v10.2.3", "v1.2.3-a.b", "v1.2.3-a.b+c", "bad", "", "v2", "v2.0.0+incompatible", "v2.0.0", "v1.2.3-10", "v1.2.3-9"}
+		r.Bounds["call_histories"] = fmt.Sprintf("all ordered pairs of %d related versions", len(rel))
+		for _, a := range rel {
+			for _, b := range rel {
+				l.States++
+				l.Execs += 3
+				l.Transitions++
+				unary(a)
+				if msg, _ := unary(b); msg != "" {
+					r.Violation("history:"+strconv.QuoteToASCII(a)+","+strconv.QuoteToASCII(b), "right after the same queries for "+strconv.Quote(a)+": "+msg, caseT{"unary", q(b)})
+				}
+				if msg := pair(a, b); msg != "" {
+					r.Violation("pair:"+strconv.QuoteToASCII(a)+","+strconv.QuoteToASCII(b), msg, caseT{"pair", q(a, b)})
+				}
+			}
+		}
+		r.Merge(l)
+	}
 	// long lists: lengths around the thresholds at which sorting code changes strategy (insertion sort up
 	// to 12, pre-parsing above some size, ...), built from a pool with invalid strings that fail at different
 	// points of the grammar, in several arrangements
